@@ -155,6 +155,10 @@ func runChild() {
 	idx, _ := strconv.Atoi(os.Args[2])
 	dir := os.Args[3]
 	seed, _ := strconv.ParseInt(os.Getenv("VERIF_SEED"), 10, 64)
+	if idx >= directedBase {
+		runDirected(idx-directedBase, dir, seed)
+		return
+	}
 	rnd := rand.New(rand.NewSource(seed*6151 + int64(idx)*7907 + 3))
 	c := cfg{
 		Readers: 4 + rnd.Intn(5), Flushers: 1 + rnd.Intn(3), Levels: 2 + rnd.Intn(2),
@@ -206,6 +210,15 @@ func runChild() {
 		fatal(dir, res, "create family: %v", err)
 	}
 	mon.family = fam
+	// a seeded delay between version.Release's decrement and the removal from the active versions
+	{
+		snap0 := fam.GetSnapshot()
+		version.VerifGateRemoveVersion(snap0.GetCurrent().GetFamilyVersion(), func(version.Version) {
+			mon.count("remove_version_gate_passes", 1)
+			delay()
+		})
+		snap0.Close()
+	}
 
 	keys := make([]uint32, c.Keys)
 	for i := range keys {
